@@ -186,6 +186,7 @@ snapshot(struct ly_ctx *ctx, int rc, uint16_t cc0, int touch)
             } else {
                 snprintf(key, sizeof key, "%s@%s", m->name, m->revision ? m->revision : "-");
                 oput(":c%d.%08x", cls_of(key, p), fnv(p));
+                if (getenv("VP_CTX_DUMP")) fprintf(stderr, "=== %s %08x\n%s\n", key, fnv(p), p);
             }
             free(p);
         } else {
